@@ -460,6 +460,7 @@ def run(ctx, replay=None):
         ctx.h("resumes", sum(1 for op in log if op["kind"] == "resume" and "err" not in op))
         ctx.h("checkpointing", spec["checkpointing"])
         ctx.h("fidelity_grid", spec.get("fid_grid", "1..n"))
+        ctx.h("table_renamed_by_rename_objectives", bool(spec.get("rename")))
         ctx.h("config_key_order", spec.get("key_order", "xy"))
         ctx.h("table_has_missing_cells", any(x != x for ps in spec["table"] for rows in ps for r_ in rows for x in r_[1]))
         ctx.h("hyperparameter_objectives_values_calls", sum(1 for op in log if op["kind"] == "hov") + (1 if kind == "tuner" and case["tp"].get("hov") else 0))
